@@ -406,6 +406,10 @@ class SchedModel:
             if nm in self.F:
                 return frozenset([nm])
             return None
+        if isinstance(e, ast.Name) and hasattr(self, "F"):
+            d = self._local_def(e.id)
+            if d is not None and not isinstance(d, ast.Name):
+                return self.count_of(d, allow_funcs)
         if allow_funcs and isinstance(e, ast.Call) and isinstance(e.func, ast.Name) and not e.args and not e.keywords \
                 and e.func.id in self.count_funcs:
             return self.count_funcs[e.func.id]
@@ -454,11 +458,42 @@ class SchedModel:
             self.exec_kwargs.append(kw)
 
     # ------------------------------------------------------------------ atoms and clauses
-    def atom(self, e: ast.AST) -> Tuple[str, bool]:
+    def _local_def(self, name: str) -> Optional[ast.AST]:
+        """The expression a scheduler-local name stands for, when it is assigned exactly once in the function (an explaining
+        variable such as `pool_is_full = n_running() == max_concurrency`)."""
+        if name in (self.R, self.G, self.xn) or name in self.F:
+            return None
+        defs = [n for n in iter_own_nodes(self.fn.node) if isinstance(n, (ast.Assign, ast.AnnAssign))
+                and any(isinstance(t, ast.Name) and t.id == name for t in (n.targets if isinstance(n, ast.Assign) else [n.target]))]
+        others = [n for n in iter_own_nodes(self.fn.node) if isinstance(n, ast.Name) and n.id == name and isinstance(n.ctx, ast.Store)]
+        if len(defs) == 1 and len(others) == 1 and defs[0].value is not None and not isinstance(defs[0].value, ast.Await):
+            return defs[0].value
+        return None
+
+    def _activation_expr(self, e: ast.AST) -> Optional[bool]:
+        """`X.active is None or <truth of X.active.result(..)>` written in place of the activation predicate: ACTIVE."""
+        if isinstance(e, ast.BoolOp) and isinstance(e.op, ast.Or) and len(e.values) == 2:
+            a, b = e.values
+            none_t = isinstance(a, ast.Compare) and len(a.ops) == 1 and isinstance(a.ops[0], ast.Is) and isinstance(a.left, ast.Attribute) \
+                and a.left.attr == "active" and dotted(a.left.value) == self.xn and isinstance(a.comparators[0], ast.Constant) \
+                and a.comparators[0].value is None
+            if isinstance(b, ast.Call) and dotted(b.func) == "bool" and len(b.args) == 1:
+                b = b.args[0]
+            res_t = isinstance(b, ast.Call) and isinstance(b.func, ast.Attribute) and b.func.attr == "result" \
+                and isinstance(b.func.value, ast.Attribute) and b.func.value.attr == "active" and dotted(b.func.value.value) == self.xn
+            if none_t and res_t:
+                return True
+        return None
+
+    def atom(self, e: ast.AST, _depth: int = 0) -> Tuple[str, bool]:
         R, xn = self.R, self.xn
         # unwrap bool(...)
         if isinstance(e, ast.Call) and dotted(e.func) == "bool" and len(e.args) == 1:
-            return self.atom(e.args[0])
+            return self.atom(e.args[0], _depth)
+        if isinstance(e, ast.Name) and _depth < 3:
+            d = self._local_def(e.id)
+            if d is not None and not isinstance(d, ast.BoolOp):
+                return self.atom(d, _depth + 1)
         if isinstance(e, ast.Name) and e.id == R:
             return ("R_EMPTY", False)
         if isinstance(e, ast.Call) and dotted(e.func) == "len" and e.args and dotted(e.args[0]) == R:
@@ -530,9 +565,21 @@ class SchedModel:
                     return d.split(".")[-1]
         return None
 
-    def clauses(self, test: ast.AST, val: bool) -> List[Clause]:
+    def clauses(self, test: ast.AST, val: bool, _depth: int = 0) -> List[Clause]:
         if isinstance(test, ast.UnaryOp) and isinstance(test.op, ast.Not):
-            return self.clauses(test.operand, not val)
+            return self.clauses(test.operand, not val, _depth)
+        if isinstance(test, ast.Name) and _depth < 3:
+            d = self._local_def(test.id)
+            if d is not None:
+                return self.clauses(d, val, _depth + 1)
+        if self._activation_expr(test):
+            return [frozenset([("ACTIVE", val)])]
+        # the negation normal form of the same expression: X.active is not None and not <truth>
+        if isinstance(test, ast.BoolOp) and isinstance(test.op, ast.And) and len(test.values) == 2:
+            from .loader import _neg
+
+            if self._activation_expr(_neg(test)):
+                return [frozenset([("ACTIVE", not val)])]
         if isinstance(test, ast.BoolOp):
             parts = [self.clauses(v, val) for v in test.values]
             conj = (isinstance(test.op, ast.And) and val) or (isinstance(test.op, ast.Or) and not val)
